@@ -54,6 +54,8 @@ pub fn build_state<K: Elem, V: Elem>(s: &StateSpec, c: &mut Ctx) -> MapDrv<K, V>
     let evals_before = c.evaluations;
     let bh = PlanBH::new(s.plan, s.salt);
     let universe = 4096u32.min(K::ID_SPACE);
+    // scaled-down sizes for the Miri lane
+    let s = &if crate::util::slow_lane() { StateSpec { size: s.size % 2, ..s.clone() } } else { s.clone() };
     let mut d: MapDrv<K, V> = MapDrv::new(bh, universe, 0);
     d.validate_every = u32::MAX;
     let put = |d: &mut MapDrv<K, V>, id: u32, rng: &mut Rng| {
